@@ -20,6 +20,7 @@ package majority
 //@             && result.(MajorityHeuristicParams).DrawResolution == params.(MajorityHeuristicParams).DrawResolution
 //@   ensures [weights_restricted] forall k int :: 0 <= k && k < len(*leftCriteria) ==>
 //@             result.(MajorityHeuristicParams).Weights[(*leftCriteria)[k].Id] == params.(MajorityHeuristicParams).Weights[(*leftCriteria)[k].Id]
+//@   ensures [no_weight_left_for_an_omitted_criterion] forall q string :: q in result.(MajorityHeuristicParams).Weights ==> exists k int :: 0 <= k && k < len(*leftCriteria) && (*leftCriteria)[k].Id == q
 
 //@ func (*MajorityBiasListener).OnCriterionAdded
 //@   property C07 C18 C11 C01
@@ -67,7 +68,7 @@ package majority
 //@   ensures [rest_unchanged] result.worseThanCurrent == worseThanCurrent && result.current == current
 
 //@ func (*CurrentIsWinnerDrawResolver).Resolve
-//@   property C11 C01
+//@   property C11 C01 C09
 //@   ensures [newcomer_drops_out_alone] result != nil && len(result.worseThanCurrent) == len(worseThanCurrent) + 1
 //@             && (forall k int :: 0 <= k && k < len(worseThanCurrent) ==> result.worseThanCurrent[k] == old(worseThanCurrent[k]))
 //@             && len(result.worseThanCurrent[len(worseThanCurrent)]) == 1
@@ -75,7 +76,7 @@ package majority
 //@   ensures [rest_unchanged] result.sameBuffer == sameBuffer && result.current == current
 
 //@ func (*NewerIsWinnerResolver).Resolve
-//@   property C11 C01
+//@   property C11 C01 C09
 //@   ensures [current_group_drops_out] result != nil && len(result.worseThanCurrent) == len(worseThanCurrent) + 1
 //@             && (forall k int :: 0 <= k && k < len(worseThanCurrent) ==> result.worseThanCurrent[k] == old(worseThanCurrent[k]))
 //@             && len(result.worseThanCurrent[len(worseThanCurrent)]) == len(sameBuffer) + 1
@@ -168,24 +169,24 @@ package majority
 //@ ifacemethod DrawResolver.Identifier
 //@   ensures result == drawName(self)
 //@ func (*DrawAllowedResolver).Identifier
-//@   property C11 C20
+//@   property C11 C20 C01
 //@   nopanic
 //@   ensures [name] result == "allow"
 //@ func (*CurrentIsWinnerDrawResolver).Identifier
-//@   property C11 C20
+//@   property C11 C20 C01
 //@   nopanic
 //@   ensures [name] result == "current"
 //@ func (*NewerIsWinnerResolver).Identifier
-//@   property C11 C20
+//@   property C11 C20 C01
 //@   nopanic
 //@   ensures [name] result == "newer"
 //@ func (*RandomWinnerResolver).Identifier
-//@   property C11 C20
+//@   property C11 C20 C01
 //@   nopanic
 //@   ensures [name] result == "random"
 // the policy named in the request; the first registered one when none is named; an unknown name is rejected
 //@ func (*Majority).drawResolver
-//@   property C11 C20 C01
+//@   property C11 C20 C01 C09
 //@   panics_iff [unknown_policy] len(params.DrawResolution) == 0 ? len(m.drawResolvers) == 0 : !(exists k int :: 0 <= k && k < len(m.drawResolvers) && drawName(m.drawResolvers[k]) == params.DrawResolution)
 //@   ensures [by_name_default_first] len(params.DrawResolution) == 0 ? result == m.drawResolvers[0]
 //@             : (exists k int :: 0 <= k && k < len(m.drawResolvers) && result == m.drawResolvers[k] && drawName(result) == params.DrawResolution
@@ -196,21 +197,21 @@ package majority
 //@ spec mjCurrent(p limited_rationality.HeuristicParams) string = p.(*MajorityHeuristicParams).CurrentChoice
 //@ spec mjRandom(p limited_rationality.HeuristicParams) bool = p.(*MajorityHeuristicParams).RandomAlternativesOrdering
 //@ func (*MajorityHeuristicParams).GetCurrentChoice
-//@   property C11 C01
+//@   property C11 C01 C09
 //@   nopanic
 //@   refines limited_rationality.HeuristicParams.GetCurrentChoice with currentChoiceOf=mjCurrent
 //@   ensures result == m.CurrentChoice
 //@ func (*MajorityHeuristicParams).IsRandomAlternativesOrdering
-//@   property C11 C01
+//@   property C11 C01 C09
 //@   nopanic
 //@   refines limited_rationality.HeuristicParams.IsRandomAlternativesOrdering with randomOrderOf=mjRandom
 //@   ensures result == m.RandomAlternativesOrdering
 //@ func (*MajorityHeuristicParams).GetRandomSeed
-//@   property C11 C01
+//@   property C11 C01 C09
 //@   nopanic
 //@   ensures result == m.RandomSeed
 //@ func (*Majority).ParseParams
-//@   property C11 C20 C01
+//@   property C11 C20 C01 C09
 //@   ensures [decoded_parameters] typeis(result, MajorityHeuristicParams)
 //@             && result.(MajorityHeuristicParams).CurrentChoice == (decoded_has(dm.MethodParameters, "CurrentChoice") ? decoded_str(dm.MethodParameters, "CurrentChoice") : "")
 //@             && result.(MajorityHeuristicParams).DrawResolution == (decoded_has(dm.MethodParameters, "DrawResolution") ? decoded_str(dm.MethodParameters, "DrawResolution") : "")
@@ -219,7 +220,7 @@ package majority
 
 // ---- the tournament loop, one step at a time (C11, C01): the running winner meets the next alternative of the search order
 //@ func (*Majority).Evaluate
-//@   property C11 C01
+//@   property C11 C01 C09
 //@   requires [parameters] typeis(dm.MethodParameters, MajorityHeuristicParams)
 //@   returnhint [policy_named_in_the_request] len(params.DrawResolution) == 0 ? drawResolver == m.drawResolvers[0]
 //@             : (exists k int :: 0 <= k && k < len(m.drawResolvers) && drawResolver == m.drawResolvers[k] && drawName(drawResolver) == params.DrawResolution)
@@ -232,3 +233,18 @@ package majority
 //@             && sameBuffer[len(sameBuffer) - 1].Alternative == current && typeis(sameBuffer[len(sameBuffer) - 1].Evaluation, MajorityEvaluation)
 //@             && sameBuffer[len(sameBuffer) - 1].Evaluation.(MajorityEvaluation).Value == currentEvaluation
 //@             && worseThanCurrent[len(worseThanCurrent) - 1] == sameBuffer
+
+// the registered object holds exactly the collaborators it was built with, each in its own role
+//@ func NewMajority
+//@   property C11 C20 C09 C01
+//@   panics_iff [no_draw_policies] len(drawResolvers) == 0
+//@   ensures [wired_as_given] result != nil && fresh(result) && result.generator == generator && result.drawResolvers == drawResolvers
+
+// ---- wire format: the JSON names under which requests are read and responses are written (struct tags; encoding/json
+// itself is outside the verified code).  A renamed or omitempty field changes what a client sees without changing any Go value.
+//@ wire MajorityHeuristicParams
+//@   property C01 C09 C11 C20
+//@   json Weights=weights CurrentChoice=currentChoice RandomSeed=randomSeed RandomAlternativesOrdering=randomAlternativesOrdering DrawResolution=drawResolution
+//@ wire MajorityEvaluation
+//@   property C01 C09 C11 C20
+//@   json Value=value ComparedWith=comparedWith ComparedAlternativeValue=comparedAlternativeValue
